@@ -432,14 +432,15 @@ class MCNP_Problem:
                             warning.lines = lines
                             warning.handled = True
                     for line in lines:
-                        fh.write(line + "\n")
+                        # trailing blanks carry no meaning and are lost when the file is read back
+                        fh.write(line.rstrip() + "\n")
                 if objects is self.data_inputs:
                     # cell modifier inputs belong inside the data block:
                     # MCNP ignores everything after the blank line that ends it
                     for line in self.cells._run_children_format_for_mcnp(
                         self.data_inputs, self.mcnp_version
                     ):
-                        fh.write(line + "\n")
+                        fh.write(line.rstrip() + "\n")
                 if terminate:
                     fh.write("\n")
 
